@@ -175,6 +175,11 @@ def gen(ctx):
         [{"mode": "session", "sub": "a", "writes": [0, 0, 0]}, {"mode": "session", "sub": "b", "writes": [0, 0]}, {"mode": "session", "sub": "a/y", "writes": [0, 0]},
          {"mode": "session", "sub": ".", "writes": [0]}],
     ]
+    directed += [
+        # many writer directories in one split: one call with 11 writers, and two calls of 5 and 6 that add up
+        [{"mode": "multi", "writers": [(1 + k % 2, 0) for k in range(11)]}, {"mode": "session", "sub": ".", "writes": [0]}],
+        [{"mode": "multi", "writers": [(1, 0)] * 5}, {"mode": "multi", "writers": [(2, 0), (1, 1), (1, 0), (1, 0), (1, 0), (1, 0)]}],
+    ]
     for j, d in enumerate(directed):
         cases.insert(0, {"root": str(ctx.scratch / f"c03_d{j}"), "fmt": ["fb", "npz", "tfrec"][j % 3], "comp": "", "eps": 2, "seed": j,
                          "thorough": ctx.thorough, "sessions": d, "mode": "directed:" + "+".join(x["mode"] for x in d)})
